@@ -478,8 +478,14 @@ def run(ctx):
     # ================= correspondence: corrmtx =================
     cases = []; meta = []
 
+    cm_raised = []
+
     def add_cm(x, m, method, xform='array'):
-        X = np.asarray(corrmtx(as_input(x, xform), m, method))
+        try:
+            X = np.asarray(corrmtx(as_input(x, xform), m, method))
+        except Exception:
+            cm_raised.append((x, m))             # m < N is admissible: reported below through the search oracle, with a replay
+            return
         rows, cols = (X.shape if X.ndim == 2 else (X.shape[0], 0))
         cases.append('cm_case %s %d%%nat %d%%nat %d%%nat %d%%nat %s' % (czl(x), m, METHODS.index(method), rows, cols, czl(X.ravel())))
         meta.append({'function': 'acorr_consistency', 'x': vlib.hexv(x), 'x_form': xform, 'm': m, 'method': method})
@@ -505,6 +511,8 @@ def run(ctx):
         for key, what in bad:
             ctx.violation(key, what, rep)
 
+    for x, m in cm_raised[:20]:
+        report(check_acorr_consistency(x, m), rep_of('acorr_consistency', x, m=m))
     nmax = ctx.q(40, 128)
     for it in range(ctx.q(260, 8000)):
         style = str(rng.choice(['noise', 'tone', 'int', 'big']))
